@@ -18,6 +18,15 @@ checks report as a broken tie):
   modelled (ranges are hypotheses of the linking lemmas where they matter).
   `assume` entries fold a condition to a constant (documented per function).
 Result of a function: (return value, out-parameter fields written ...) as a tuple of Z.
+
+Second generation (TYPED / class CTr, further down): typed translation that follows every implicit conversion of the clang
+AST, with the integer semantics of C explicit (unsigned wrap-around, signed overflow / bad shifts / division by zero / null
+dereference = None), uint32_t etc., casts, `& flag`, pointer comparison as comparison of address parameters, sizeof evaluated
+by clang, ?:, ++ / -- / op= with their side effects, whole functions as well as single conditions / statements / call
+arguments of larger functions.  One generated file per C source file (Gen/LeafWork.v, LeafPopen.v, LeafAvl.v, LeafInotify.v,
+LeafSignal.v, LeafWait.v), semantics in the hand-written Base/CSem.v, link lemmas in MT/WorkLink.v, Misc/PopenLink.v,
+Avl/AvlLink.v, Misc/InotifyLink.v, MT/SignalLink.v, MT/WaitLink.v; checks call lib/leafgen.py.
+usage: c2gallina.py [path of Leaf.v]      regenerates every generated file next to it (default coq/theories/Gen)
 """
 import json
 import os
@@ -682,6 +691,8 @@ def translate_cond(gname, decl, which):
 #                        pre-order over the whole function body: result option bool
 #   ("stmt", lhs, n)     the n-th statement (pre-order) that writes the lvalue spelled `lhs` (= , op= , ++ , -- , or a
 #                        declaration with an initialiser): result Some (new value of lhs, other objects written ...)
+#   ("arg", f, n, i)     argument number i (0 = first) of the n-th call of the function f (pre-order over the whole body):
+#                        result Some value
 # Options (dict): "#opaque_init": [names of local variables whose initialiser is NOT translated (e.g. iv_container_of);
 #                 the local then stands for whatever it holds: its fields / address are parameters].
 INT_TYPES = {"char": (True, 8), "signed char": (True, 8), "unsigned char": (False, 8), "short": (True, 16),
@@ -700,6 +711,41 @@ TYPED = [
         ("work_drained_test", "iv_work_thread_got_event", ("cond", "if", 2), {}),
         ("work_take_seq", "iv_work_thread_got_event", ("stmt", "pool->seq_head", 0), {}),
         ("work_submit_seq", "iv_work_submit_pool", ("stmt", "pool->seq_tail", 0), {}),
+    ]),
+    ("LeafPopen.v", "iv_popen.c", [
+        ("popen_signum", "iv_popen_running_child_timer", ("stmt", "signum", 0), {}),
+        ("popen_rearm_sec", "iv_popen_running_child_timer", ("stmt", "ch->signal_timer.expires.tv_sec", 0), {}),
+        ("popen_close_kills", "iv_popen_request_close", ("stmt", "ch->num_kills", 0), {}),
+    ]),
+    ("LeafAvl.v", "iv_avl.c", [
+        ("avl_height", "height", ("fn",), {}),
+        ("avl_recalc_height", "recalc_height", ("fn",), {}),
+        ("avl_balance", "balance", ("fn",), {}),
+        ("avl_rebalance_bal", "rebalance_node", ("stmt", "bal", 0), {}),
+        ("avl_rebalance_left_heavy", "rebalance_node", ("cond", "if", 0), {}),
+        ("avl_rebalance_left_single", "rebalance_node", ("cond", "if", 1), {}),
+        ("avl_rebalance_right_heavy", "rebalance_node", ("cond", "if", 2), {}),
+        ("avl_rebalance_right_double", "rebalance_node", ("cond", "if", 3), {}),
+    ]),
+    ("LeafInotify.v", "iv_inotify.c", [
+        ("inotify_read_size", "iv_inotify_got_event", ("arg", "read", 0, 2), {}),
+        ("inotify_nothing_read", "iv_inotify_got_event", ("cond", "if", 0), {}),
+        ("inotify_read_zero", "iv_inotify_got_event", ("cond", "if", 1), {}),
+        ("inotify_curr_init", "iv_inotify_got_event", ("stmt", "curr", 0), {}),
+        ("inotify_end_init", "iv_inotify_got_event", ("stmt", "end", 0), {}),
+        ("inotify_loop_test", "iv_inotify_got_event", ("cond", "while", 0), {}),
+        ("inotify_event_at", "iv_inotify_got_event", ("stmt", "event", 0), {}),
+        ("inotify_dropped_test", "iv_inotify_got_event", ("cond", "if", 4), {}),
+        ("inotify_advance", "iv_inotify_got_event", ("stmt", "curr", 1), {}),
+        ("inotify_gone_test", "iv_inotify_got_event", ("cond", "if", 5), {}),
+    ]),
+    ("LeafSignal.v", "iv_signal.c", [
+        ("signal_compare", "iv_signal_compare", ("fn",), {"#opaque_init": ["a", "b"]}),
+    ]),
+    ("LeafWait.v", "iv_wait.c", [
+        ("wait_interest_compare", "iv_wait_interest_compare", ("fn",), {"#opaque_init": ["a", "b"]}),
+        ("wait_find_hit", "__iv_wait_interest_find", ("cond", "if", 0), {}),
+        ("wait_find_left", "__iv_wait_interest_find", ("cond", "if", 1), {}),
     ]),
 ]
 
@@ -827,7 +873,7 @@ class CTr:
     @staticmethod
     def close(binds, body):
         for v, t in reversed(binds):
-            body = "(ub_bind %s (fun %s => %s))" % (t, v, body)
+            body = t if body == "(Some %s)" % v else "(ub_bind %s (fun %s => %s))" % (t, v, body)
         return body
 
     @staticmethod
@@ -1350,7 +1396,10 @@ class CTr:
         if t[0] == "IF":
             return "%sif %s then\n%s\n%selse\n%s" % (pad, t[1], self.render(t[2], ind + 1, ret_ty), pad, self.render(t[3], ind + 1, ret_ty))
         if t[0] == "BIND":
-            return "%sub_bind %s (fun %s =>\n%s)" % (pad, t[2], t[1], self.render(t[3], ind, ret_ty))
+            rest = self.render(t[3], ind, ret_ty)
+            if rest.strip() == "Some " + t[1]:
+                return pad + self.unparen(t[2])
+            return "%sub_bind %s (fun %s =>\n%s)" % (pad, t[2], t[1], rest)
         raise Unsupported("tree")
 
     # ---------------------------------------------------------------- selection of the translated text
@@ -1495,6 +1544,31 @@ class CTr:
             what = "statement #%d writing `%s` of %s() of src/%s" % (sel[2], sel[1], fn, self.cfile)
             res = ["new value of `%s`" % o[1] for o in self.outs]
             order = list(self.params)
+        elif sel[0] == "arg":
+            calls = []
+
+            def walk(n):
+                if isinstance(n, dict):
+                    if n.get("kind") == "CallExpr":
+                        try:
+                            if self.callee_name(n) == sel[1]:
+                                calls.append(n)
+                        except Unsupported:
+                            pass
+                    for c in n.get("inner", []):
+                        walk(c)
+            walk(self.body)
+            if len(calls) <= sel[2] or len(calls[sel[2]]["inner"]) <= sel[3] + 1:
+                raise Unsupported("%s() has no call number %d of %s with an argument %d" % (fn, sel[2], sel[1], sel[3]))
+            a = calls[sel[2]]["inner"][sel[3] + 1]
+            self.scan_addr(a)
+            self.no_effects = True
+            v = self.asZ(self.ex(a, {}))
+            text = "  " + self.unparen(self.close(self.binds, "(Some %s)" % v.t))
+            rty = "Z"
+            what = "argument %d of call #%d of %s in %s() of src/%s" % (sel[3], sel[2], sel[1], fn, self.cfile)
+            res = ["the value of the argument"]
+            order = list(self.params)
         else:
             raise Unsupported("selector %s" % (sel,))
         com = "%s\n   parameters: %s\n   result: Some (%s)%s" % (
@@ -1505,8 +1579,49 @@ class CTr:
             self.gname, " ".join("(%s : Z)" % p[0] for p in order) if order else "(_ : unit)", rty, text)
 
 
-def main(out_path=None):
+def main_typed(out_path, inc, typed):
+    """(re)write the given entries of TYPED next to out_path; failures go to LAST_ERRORS[file name]"""
+    # typed translations (TYPED): one file per C source file, failures per file in LAST_ERRORS (the other files are not disturbed)
+    for fname, cfile, entries in typed:
+        head = ("(* %s -- GENERATED by gen/c2gallina.py (TYPED, class CTr) from the current C source of /repo/src/%s.  Do not edit.\n"
+                "   Every definition has type option T: None = an operation whose behaviour C leaves undefined was executed; the\n"
+                "   semantics of the C operators (wrap-around, range checks, shifts, null dereference) is Base/CSem.v; conventions\n"
+                "   (flattened lvalues p->f = p_f, address of a pointer p = p_addr, block-scope variables as parameters) in the\n"
+                "   comment above class CTr of gen/c2gallina.py. *)\n"
+                "From Coq Require Import ZArith Bool.\nFrom Ivv Require Import Base.CSem.\nLocal Open Scope Z_scope.\n\n" % (fname, cfile))
+        LAST_ERRORS.pop(fname, None)
+        gparts = [head]
+        cur = "?"
+        try:
+            known2 = {}
+            for gname, fn, sel, opts in entries:
+                cur = "%s (%s of %s)" % (gname, " ".join(str(x) for x in sel), fn)
+                tr = CTr(gname, ast_of_cached(cfile, fn, inc), cfile, inc, sel, opts, known2)
+                gparts.append(tr.translate() + "\n")
+        except (Unsupported, KeyError, IndexError, TypeError, ValueError) as e:
+            LAST_ERRORS[fname] = "c2gallina: %s: %s: unsupported construct: %s" % (cfile, cur, e)
+            gparts = [head, "(* TRANSLATION FAILED: %s: %s *)\n" % (cur, str(e).replace("*)", "* )").replace("(*", "( *"))]
+        gpath = os.path.join(os.path.dirname(out_path), fname)
+        gnew = "".join(gparts)
+        gold = open(gpath).read() if os.path.exists(gpath) else None
+        if gnew != gold:
+            os.makedirs(os.path.dirname(gpath), exist_ok=True)
+            open(gpath, "w").write(gnew)
+    return None
+
+
+def main(out_path=None, only=None):
+    """only = None: the files of FUNCS / CONDS / TLS_* (Leaf.v, LeafTimer.v, LeafTls.v), as before TYPED existed;
+    only = "all": those and every file of TYPED;  only = [file names]: exactly these files of TYPED and nothing else.
+    Every check regenerates just the generated files its own proofs depend on, so that runs against different source trees
+    (VERIF_REPO, mutation surveys) of DIFFERENT properties do not rewrite each other's generated files."""
     out_path = out_path or os.path.join(VERIF, "coq", "theories", "Gen", "Leaf.v")
+    legacy = only is None or only == "all"
+    typed = [t for t in TYPED if only == "all" or (only is not None and t[0] in only)]
+    if only not in (None, "all"):
+        unknown = [f for f in only if f not in [t[0] for t in TYPED]]
+        if unknown:
+            return "c2gallina: no such generated file: %s" % ", ".join(unknown)
     inc = os.path.join(VERIF, "build", "gen_inc.%d" % os.getpid())
     os.makedirs(inc, exist_ok=True)
     try:
@@ -1516,6 +1631,8 @@ def main(out_path=None):
         if not os.path.exists(cfg):
             cfg = os.path.join(VERIF, "harness", "config.h.fallback")
         open(os.path.join(inc, "config.h"), "w").write(open(cfg).read())
+        if not legacy:
+            return main_typed(out_path, inc, typed)
         known = {}
         parts = ["(* Leaf.v -- GENERATED by gen/c2gallina.py from the current C source of /repo/src.  Do not edit.\n"
                  "   Each definition is the translation of one loop-free leaf function; see gen/c2gallina.py for the\n"
@@ -1579,31 +1696,7 @@ def main(out_path=None):
         if tnew != told:
             os.makedirs(os.path.dirname(tls_path), exist_ok=True)
             open(tls_path, "w").write(tnew)
-        # typed translations (TYPED): one file per C source file, failures per file in LAST_ERRORS (the other files are not disturbed)
-        for fname, cfile, entries in TYPED:
-            head = ("(* %s -- GENERATED by gen/c2gallina.py (TYPED, class CTr) from the current C source of /repo/src/%s.  Do not edit.\n"
-                    "   Every definition has type option T: None = an operation whose behaviour C leaves undefined was executed; the\n"
-                    "   semantics of the C operators (wrap-around, range checks, shifts, null dereference) is Base/CSem.v; conventions\n"
-                    "   (flattened lvalues p->f = p_f, address of a pointer p = p_addr, block-scope variables as parameters) in the\n"
-                    "   comment above class CTr of gen/c2gallina.py. *)\n"
-                    "From Coq Require Import ZArith Bool.\nFrom Ivv Require Import Base.CSem.\nLocal Open Scope Z_scope.\n\n" % (fname, cfile))
-            LAST_ERRORS.pop(fname, None)
-            gparts = [head]
-            cur = "?"
-            try:
-                known2 = {}
-                for gname, fn, sel, opts in entries:
-                    cur = "%s (%s of %s)" % (gname, " ".join(str(x) for x in sel), fn)
-                    tr = CTr(gname, ast_of_cached(cfile, fn, inc), cfile, inc, sel, opts, known2)
-                    gparts.append(tr.translate() + "\n")
-            except (Unsupported, KeyError, IndexError, TypeError, ValueError) as e:
-                LAST_ERRORS[fname] = "c2gallina: %s: %s: unsupported construct: %s" % (cfile, cur, e)
-                gparts = [head, "(* TRANSLATION FAILED: %s: %s *)\n" % (cur, str(e).replace("*)", "* )").replace("(*", "( *"))]
-            gpath = os.path.join(os.path.dirname(out_path), fname)
-            gnew = "".join(gparts)
-            gold = open(gpath).read() if os.path.exists(gpath) else None
-            if gnew != gold:
-                open(gpath, "w").write(gnew)
+        main_typed(out_path, inc, typed)
         new = "".join(parts)
         old = open(out_path).read() if os.path.exists(out_path) else None
         if new != old:
@@ -1618,7 +1711,9 @@ def main(out_path=None):
 
 
 if __name__ == "__main__":
-    err = main(sys.argv[1] if len(sys.argv) > 1 else None)
+    err = main(sys.argv[1] if len(sys.argv) > 1 else None, "all")
+    for k, v in LAST_ERRORS.items():
+        print(k + ": " + v)
     if err:
         print(err)
         sys.exit(1)
